@@ -376,10 +376,11 @@ public:
 	template<class K>
 	Array& operator=(const Array<K>& b)
 	{
-		int n = b.length();
+		Array<K> src(b); // holds b's block: b may be stored inside an element of this array (a = a[0].numbers), which resize() and the assignments destroy or move
+		int n = src.length();
 		resize(n);
 		for (int i = 0; i<n; i++)
-			_a[i] = (T)b[i];
+			_a[i] = (T)src[i];
 		return *this;
 	}
 
